@@ -104,6 +104,22 @@ def gen_strings(rng, tier):
     for n in list(range(1, 12)) + [16, 31, 32, 33, 63, 64, 65, 66, 100, 127, 128, 129, 200, 300]:
         out += ["f(" * n + "1" + ")" * n, "(" * n + "1" + ")" * n, "max(2, " * n + "1" + ")" * n, "f((" * n + "1" + "))" * n,
                 "(" * n, ")" * n, "f(" * n, "round(" * n + "1.5" + ", 1)" * n, "1" + " + (2" * n + ")" * n, "{" * n + "a" + "}" * n]
+    # operator chains at one nesting level: every sequence of a sum, a product, a power and a cast (the operand after a cast is a unit),
+    # where the parser's priority stack is popped and re-filled in every order
+    chain_ops = ["+", "*", "^", "to"]
+    for n in range(1, 6 if tier == "quick" else 7):
+        for ops in itertools.product(chain_ops, repeat=n):
+            txt = "1"
+            for j, o in enumerate(ops):
+                txt += " " + o + " " + (("m", "s", "km", "hr")[j % 4] if o == "to" else str(j + 2))
+            out.append(txt)
+    for _ in range(300 if tier == "quick" else 3000):
+        n = rng.choice([6, 7, 8, 10, 12])
+        txt = rng.choice(["1", "2 m", "x", "(1)"])
+        for j in range(n):
+            o = rng.choice(["+", "-", "*", "/", "^", "**", "to", "to"])
+            txt += rng.choice([" ", " ", "  "]) + o + " " + (rng.choice(["m", "s", "km/hr", "m^2", "N"]) if o == "to" else rng.choice(["2", "3 s", "y", "(4)", "f(5)"]))
+        out.append(txt)
     nq = 800 if tier == "quick" else 6000
     for _ in range(nq):
         out.append(random_query(rng))
